@@ -125,3 +125,12 @@ def register(check, not_yet):
           "Signatures are enumerated (6 quick / 13 thorough). Constant stack for recur is a single concrete 10^6-iteration run under a "
           "recursion limit of 250, not a solver verdict.",
           "CrossHair (z3) symbolic execution of compiled fn objects + runtime.apply/partial", "DESIGN.md section 4 C08", "A:crosshair")
+    check("C09", "other",
+          "Bounded symbolic verification under CrossHair: each destructuring pattern (sequential with & rest and :as, nested, skipping; "
+          ":keys/:strs/:syms, :or, :as, renamed and nested, namespaced keys) in let / fn parameters / loop is compiled by the real "
+          "compiler, and its macroexpansion is compiled separately; both run on symbolic values (vector/list/lazy seq/nil of <= 3 nil/int, "
+          "maps with symbolic key presence, nil) and must bind exactly what the real nth / nthnext / get return. Syntax-quote templates "
+          "are evaluated with a symbolic unquoted value and spliced sequence: holes filled, collection types preserved, symbols qualified "
+          "to the Var they denote (core / local / alias / special form), auto-gensyms one symbol per template and fresh per template and per read.",
+          "Patterns and templates are enumerated (8 + 4). The reader is given runtime.resolve_alias as resolver, as the importer and REPL do.",
+          "CrossHair (z3) symbolic execution of compiled destructuring / syntax-quote forms vs nth/get oracle", "DESIGN.md section 4 C09", "A:crosshair")
